@@ -19,3 +19,6 @@ open RV.C11
 #print axioms prefix_aggregate_duplicates
 #print axioms neg_affected_iff
 #print axioms neg_affected_answer
+#print axioms path_n3_roundtrip_partial
+#print axioms path_n3_roundtrip_witness
+#print axioms n3_query_same_partial
